@@ -39,11 +39,14 @@ type check struct {
 	sweeps []*sweep
 	units  int64
 	pageH  int
-	// font configurations of the unit being explored: fresh for every unit (one paragraph of one
-	// sweep), shared by its rows and widths (building one per layout costs twice the layout itself
-	// and every copy of the fontconfig configuration stays reachable for ever)
-	fonts map[string]text.FontConfiguration
+	// font configurations in use: renewed every fontUnits consecutive units and shared by their
+	// layouts (building one per layout costs twice the layout itself, and every copy of the
+	// fontconfig configuration stays reachable for ever: 0.5 MB each)
+	fonts    map[string]text.FontConfiguration
+	lastUnit int64
 }
+
+const fontUnits = 4
 
 func (c *check) fontConfig(engine string) (fc text.FontConfiguration) {
 	if fc = c.fonts[engine]; fc == nil {
@@ -232,7 +235,7 @@ func (c *check) Init(tier string, seed int64) engine.Space {
 	assumptions := []string{
 		"Ahem: every glyph of the alphabet (letters, space, no-break space, hyphen-minus) advances by exactly the font size; ascent .8em, descent .2em",
 		"LTR only; no hyphenation, letter-spacing or word-spacing; fonts other than Ahem are not covered (the real-font inequality clauses of the design are not implemented)",
-		"one fresh font configuration per unit (a paragraph and a block of style rows), shared by its layouts; the documents contain no @font-face",
+		"one fresh font configuration per group of 4 consecutive units (a unit = a paragraph and a block of style rows), shared by their layouts; the documents contain no @font-face",
 		"preserved tabs only in left-aligned rows without text-indent, not in pre-wrap, and (preserved) only in a single text run: the statement says nothing about tab stops",
 		"an atomic inline next to a no-break space or a hyphen is not generated (CSS Text 3 of 2020 and its earlier drafts disagree about the wrap opportunity there)",
 		"for lines ending in preserved white space (pre-wrap) both alignments, with and without the hanging spaces, are accepted; justification of non-collapsible text and expansion of no-break spaces are optional; positions inside a justified line are not compared (only its start and its total advance)",
@@ -405,6 +408,9 @@ func features(p para, r row, w int) []string {
 			}
 		}
 	}
+	if r.ws != "normal" && r.ws != "nowrap" && (p.hasSep(sepNL) || p.hasSep(sepSpNLSp)) {
+		f = append(f, "preserved-line-feed")
+	}
 	if !collapses(r.ws) && p.hasSep(sepSpace2) {
 		f = append(f, "preserved-space-run")
 	}
@@ -420,7 +426,10 @@ func caseDesc(p para, r row, w int) string {
 
 func (c *check) Run(u int64, ctx *engine.Ctx) {
 	si, sw, p, rows := c.locate(u)
-	c.fonts = map[string]text.FontConfiguration{}
+	if c.fonts == nil || u != c.lastUnit+1 || u%fontUnits == 0 {
+		c.fonts = map[string]text.FontConfiguration{}
+	}
+	c.lastUnit = u
 	for _, r := range rows {
 		if !compatible(p, r) || c.coveredEarlier(si, p, r) {
 			continue
